@@ -156,6 +156,9 @@ DEVIATIONS = [
     ("axis-no-map", _setax(0, map=[])),
     ("axis-float-map", _setax(0, map=[[100, 20.25], [400.5, 80], [900, 220.125]])),
     ("axis-flat-map", _setax(0, map=[[100, 20], [400, 80], [500, 80], [900, 220]])),
+    # results of float arithmetic: a hair off a number that ends in 0 (0.1*3*1000, 1.1*100, 0.1+0.2)
+    ("axis-float-noise-map", _setax(0, map=[[100, 20], [400, 110.00000000000001], [900, 300.00000000000006]])),
+    ("axis-float-noise-range", _setax(1, minimum=0.30000000000000004, default=100.00000000000001, maximum=200.00000000000003)),
     ("axis-labelnames", _setax(0, labelNames={"en": "Wéíght", "fr": "Graisse <&> \"q\"", "fa-IR": "قطر"})),
     ("axis-ordering", _setax(0, axisOrdering=0)),
     ("axis-ordering-2", _setax(1, axisOrdering=3)),
@@ -199,6 +202,7 @@ DEVIATIONS = [
     ("source-no-filename", _setsrc(1, filename=None)),
     ("source-partial-location", _setsrc(1, designLocation={"Weight": 220})),
     ("source-float-location", _setsrc(0, designLocation={"Weight": 20.125, "Width": 50.000001})),
+    ("source-float-noise-location", _setsrc(0, designLocation={"Weight": 20.000000000000004, "Width": 50.00000000000001})),
     ("no-instances", _set("instances", [])),
     ("two-instances", _second_instance),
     ("instance-minimal", _setinst(filename=None, name=None, familyName=None, styleName=None)),
@@ -451,6 +455,9 @@ def vdiff(a, b, path=""):
         if isinstance(b, Fraction) and b.denominator != 1:
             # a value the writer had to compute (format 4 completion): 6 decimals are stored
             return None if abs(Fraction(a) - b) <= Fraction(1, 1000000) else "%s: %r != %s" % (path, a, float(b))
+        if isinstance(a, float) or isinstance(b, float):
+            # the document stores numbers with six decimals ('%f'): half a unit of the last one
+            return None if abs(a - b) <= 5e-7 else "%s: %r != %r" % (path, a, b)
         return None if a == b else "%s: %r != %r" % (path, a, b)
     if isinstance(b, dict):
         if not isinstance(a, dict) or set(a) != set(b):
